@@ -412,6 +412,27 @@ def check_equivalent(base, rw, driver, target="sql.sqlite", k=2, schema=None, ti
         except (S.BindError, Unsupported):
             return Outcome("base_unsupported", prql=tb, base=ta, detail=str(e))
         if isinstance(e, Unsupported):
+            if "LIMIT without ORDER BY" in str(e) or "bare column" in str(e):
+                # only the rewritten program's SQL leaves its result open: report if real SQLite makes the two programs
+                # differ on a concrete instance that satisfies the base program's preconditions
+                for data in concrete_instances(schema):
+                    cdb = ConcDB(schema, data)
+                    cpre = P.Pre()
+                    try:
+                        P.Ref(cdb, base, cpre).run()
+                    except Unsupported:
+                        break
+                    if not all(z3.is_true(z3.simplify(c)) for c in cpre.conds):
+                        continue
+                    try:
+                        _, rows_a = run_sqlite(schema, data, ra["sql"])
+                        _, rows_b = run_sqlite(schema, data, rb["sql"])
+                    except sqlite3.Error:
+                        break
+                    if not rows_match([(i, r) for i, r in enumerate(rows_a)], rows_b, ordered):
+                        return Outcome("violation", kind="nondeterministic_sql", prql=tb, base=ta, sql=rb["sql"], base_sql=ra["sql"], data=data, ordered=ordered,
+                                       expected=[list(r) for r in rows_a], actual=[list(r) for r in rows_b],
+                                       detail=f"{e}; on SQLite the rewritten program returns different rows than the base program")
             return Outcome("sql_unsupported", prql=tb, base=ta, sql=rb["sql"], base_sql=ra["sql"], detail=str(e))
         # confirm on real SQLite before reporting
         data = {t: [tuple(range(1 + i, 1 + i + len(cols))) for i in range(2)] for t, cols in schema.items()}
